@@ -1,6 +1,7 @@
 import GceTcb.Model.SevCfg
 import GceTcb.Model.SevSites
 import GceTcb.Proofs.SnpBounds
+import GceTcb.Proofs.SnpConst
 import GceTcb.Gen.PanicSitesSev
 import GceTcb.Props.C04
 /-
@@ -106,6 +107,60 @@ theorem C08_finding_declared_pages :
   rw [h] at this
   simp at this
 
+/-- **What valid metadata can declare, absolutely.**  Descriptor addresses and lengths are 32-bit fields and
+    validateSections accepts only non-empty whole-page lengths and pairwise disjoint ranges (64-bit ends),
+    so the ranges lie side by side below 2^33 − 4097: an image that parses and passes validateSections
+    declares at most 2^21 − 2 pages (8 GiB − 8 KiB) in at most 2^21 − 2 descriptors (also ≤ (|image| − 16)/12),
+    and `declaredPagesOf` — the quantity in `C08_ticks_bound_LaunchDigest_partial` — is that page count plus
+    one per descriptor. -/
+theorem C08_declared_pages_bound (fw : Bytes) (rb : Codecs.ResetBlock) (secs : List SnpSections.Sec)
+    (hp : extractFromFirmware true true fw = .ok (some rb, some secs)) (hv : validateSections secs = .ok ()) :
+    SnpBounds.declaredPagesOf fw = SnpConst.totalPages secs + secs.length ∧
+    SnpConst.totalPages secs ≤ 2 ^ 21 - 2 ∧ secs.length ≤ 2 ^ 21 - 2 ∧ 12 * secs.length + 16 ≤ fw.length ∧
+    SnpBounds.declaredPagesOf fw ≤ 2 ^ 21 - 2 + (fw.length - 16) / 12 := by
+  obtain ⟨h1, h2, h3, h4⟩ := SnpConst.declaredPagesOf_le fw rb secs hp hv
+  exact ⟨h1, h2, h3, h4, by omega⟩
+
+/-- The constant is attained by valid, page-aligned metadata of four descriptors (the section loop then runs
+    4 + 2 097 150 iterations on Milan): the bound cannot be lowered without a policy on declared sizes. -/
+theorem C08_declared_pages_bound_tight :
+    SnpSections.SectionsValid SnpConst.maxSecs ∧ validateSections SnpConst.maxSecs = .ok () ∧
+    SnpConst.totalPages SnpConst.maxSecs = 2 ^ 21 - 2 ∧
+    measureSectionsTicks (productHigh 48) SnpConst.maxSecs = 4 + (2 ^ 21 - 2) :=
+  ⟨SnpConst.maxSecs_valid, (SnpSections.validateSections_ok_iff _).mpr SnpConst.maxSecs_valid,
+   SnpConst.maxSecs_pages.1, SnpConst.maxSecs_pages.2⟩
+
+/-- **The known finding D5f made precise.**  The iterations of sev.LaunchDigest are bounded by the image
+    length, the vCPU count and a CONSTANT independent of the image: the declared pages are hashed only after
+    validateSections has accepted the metadata, and accepted metadata declares at most 2^21 − 2 pages.  So the
+    time is bounded — by 2 097 150 PAGE_INFO hashes of 112 bytes beyond the linear part — but the bound is not
+    a function of the image size, which `C08_ticks_bound_LaunchDigest_full` would require
+    (`C08_finding_declared_pages`: a 4 KiB image reaches 2^20 of them). -/
+theorem C08_ticks_bound_LaunchDigest_const (o : Opts) (fw : Bytes) :
+    launchDigestTicks genCfg o fw ≤ fw.length / 2 + 4 + 2 * o.vcpus.toNat + (2 ^ 21 - 2) :=
+  SnpConst.launchDigestTicks_le_const genCfg o fw
+
+/-- allocation account likewise: linear part plus at most 128 bytes for each of the 2^21 − 2 pages (256 MiB
+    of short-lived PAGE_INFO buffers in total, never live at once) -/
+theorem C08_alloc_bound_LaunchDigest_const (o : Opts) (fw : Bytes) :
+    launchDigestAlloc genCfg o fw ≤ 64 * fw.length + 4368 * o.vcpus.toNat + (8704 + 128 * (2 ^ 21 - 2)) :=
+  SnpConst.launchDigestAlloc_le_const genCfg o fw
+
+/-- UnsignedSnp with the constant: one LaunchDigest per requested count -/
+theorem C08_ticks_bound_UnsignedSnp_const (launchVmsas product : Nat) (fw : Bytes) :
+    unsignedSnpTicks genCfg Gen.SevLayout.VmsaCounts launchVmsas product fw ≤
+      (vmsaCounts Gen.SevLayout.VmsaCounts launchVmsas).length * (fw.length / 2 + 4 + (2 ^ 21 - 2)) +
+      2 * (vmsaCounts Gen.SevLayout.VmsaCounts launchVmsas).sum := by
+  unfold unsignedSnpTicks
+  generalize vmsaCounts Gen.SevLayout.VmsaCounts launchVmsas = cs
+  induction cs with
+  | nil => simp
+  | cons n rest ih =>
+    have := SnpConst.launchDigestTicks_le_const genCfg ⟨(n : Nat), product⟩ fw
+    simp only [List.map_cons, List.sum_cons, List.length_cons, Int.toNat_natCast] at this ih ⊢
+    rw [Nat.add_mul, Nat.one_mul]
+    omega
+
 /-- allocation account of LaunchDigest: linear in image length, vCPU count and declared pages -/
 theorem C08_alloc_bound_LaunchDigest (o : Opts) (fw : Bytes) :
     launchDigestAlloc genCfg o fw ≤ 64 * fw.length + 4368 * o.vcpus.toNat + 128 * SnpBounds.declaredPagesOf fw + 8704 :=
@@ -132,5 +187,10 @@ theorem C08_ticks_bound_UnsignedSnp (launchVmsas product : Nat) (fw : Bytes) :
 example : walkStep (Codecs.zeros 16 ++ [18, 0]).reverse.reverse 18 [] ≠ .err "x" := by decide
 example : (vmsaCounts Gen.SevLayout.VmsaCounts 0).sum = 1079 := by decide
 example : SnpBounds.declaredPages [⟨0, 0xFFFFD000, 1⟩] = 1048574 := by decide
+-- the hypotheses of `C08_declared_pages_bound` are inhabited: the kernel-evaluated example image of C04 (12 pages)
+example : SnpBounds.declaredPagesOf SevExample.exFw = 12 + 4 := by
+  have h := C08_declared_pages_bound _ _ _ SnpExample.ex_parse
+    ((SnpSections.validateSections_ok_iff _).mpr SnpExample.ex_sectionsValid)
+  rw [h.1]; decide
 
 end GceTcb.Props.C08Sev
